@@ -13,6 +13,13 @@ transformation: ``renames_items`` (-> ``rekey_item_cache``) and ``creates_items`
      factory API must declare ``creates_items`` or ``renames_items`` (the scheduler
      passes ``item_factory`` only under those flags).
  R3  the scheduler reacts to the flags: item_factory hand-over, rekey, re-discovery.
+ R4  no lost update while re-keying: an attribute that ``rekey_item_cache``
+     rewrites inside its loop over the renamed items (``self.seeds = tuple(...)``)
+     must be rebuilt from the attribute's *current* value, not from a snapshot
+     taken before the loop -- otherwise only the last rename survives.
+ R5  suffix stripping is guarded by ``endswith``: ``derive_module_name`` cuts a
+     name at the last occurrence (``rindex``) of a suffix; that is a suffix strip
+     only if the name ends with it (``kernel_mod_dup`` is not ``kernel``).
 Not decided: link-ability, correctness of rekey_item_cache itself.
 """
 import ast
@@ -163,9 +170,57 @@ def run(ctx):
         (ctx.judge('R3', k, facts={'guards': gs}) if gs and gs[-1] == g else
          ctx.violation('R3', f'process_transformation:{k}', pt.where, f'{k} happens under {gs}, expected `{g}`'))
 
+    # ---- R4
+    ctx.rule('R4', 'Scheduler.rekey_item_cache: an attribute assigned inside the loop over renamed keys is rebuilt from itself, not from '
+                   'a local bound to it before the loop')
+    ctx.rule('R5', 'DependencyTransformation.derive_module_name: every cut at rindex(<suffix>) is guarded by endswith(<suffix>)')
+    rk = m.get_function('loki/batch/scheduler.py', 'Scheduler.rekey_item_cache')
+    n4 = 0
+    for lp in [x for x in ast.walk(rk.node) if isinstance(x, ast.For)]:
+        for a_ in ast.walk(lp):
+            if isinstance(a_, ast.Assign) and isinstance(a_.targets[0], ast.Attribute) and ast.unparse(a_.targets[0]).startswith('self.') \
+                    and isinstance(a_.value, ast.Call) and a_.value.args and isinstance(a_.value.args[0], (ast.GeneratorExp, ast.ListComp)):
+                attr = ast.unparse(a_.targets[0])
+                src_ = ast.unparse(a_.value.args[0].generators[0].iter)
+                n4 += 1
+                inst = f'rekey_item_cache:{attr}'
+                stale = [n_ for n_ in ast.walk(rk.node) if isinstance(n_, ast.Assign) and isinstance(n_.targets[0], ast.Name)
+                         and n_.targets[0].id == src_ and ast.unparse(n_.value) == attr and n_.lineno < lp.lineno]
+                if src_ == attr:
+                    ctx.judge('R4', inst, facts={'rebuilt_from': src_})
+                elif stale:
+                    ctx.violation('R4', f'{inst}:stale-snapshot', f'{rk.module.relpath}:{a_.lineno}',
+                                  f'`{attr}` is rebuilt inside the loop from `{src_}`, a copy taken before the loop: each iteration starts from '
+                                  f'the original value, so when several entries are renamed in one pass only the last rename survives')
+                else:
+                    raise AnalysisError(f'rekey_item_cache: {attr} is rebuilt from `{src_}`: unrecognised')
+    ctx.floor('R4', 'attributes rebuilt inside the rename loop', n4, 1)
+    dm = m.get_function('loki/transformations/build_system/dependency.py', 'DependencyTransformation.derive_module_name')
+    n5 = 0
+    for call, guards in X.nodes_with_guards(dm.node, lambda n: isinstance(n, ast.Call) and isinstance(n.func, ast.Attribute)
+                                            and n.func.attr == 'rindex'):
+        n5 += 1
+        suf = ast.unparse(call.args[0]) if call.args else '?'
+        inst = f'derive_module_name:rindex({suf})'
+        if any(f'.endswith({suf})' in g and not g.startswith('not (') for g in guards):
+            ctx.judge('R5', inst, facts={'guards': guards})
+        else:
+            ctx.violation('R5', f'{inst}:unguarded', f'{dm.module.relpath}:{call.lineno}',
+                          f'the name is cut at the last occurrence of {suf} under guards {guards}, none of which tests that the name *ends* '
+                          f'with it: kernel_mod_dup is reduced to kernel and collides with the name derived for kernel_mod')
+    ctx.floor('R5', 'suffix cuts in derive_module_name', n5, 2)
+
 
 FP = 'loki/transformations/transpile/fortran_python.py'
 MUTANTS = [
+    Mutant('seeds-from-snapshot', 'loki/batch/scheduler.py', "            if matched_keys := self.config.match_item_keys(old_name, self.seeds):",
+           "            if matched_keys := self.config.match_item_keys(old_name, seeds):", expect=('R4', 'stale-snapshot'),
+           also=[('loki/batch/scheduler.py', "        for old_name, new_name in renamed_keys.items():\n            if matched_keys := self.config.match_item_keys(old_name, self.config.routines):",
+                  "        seeds = self.seeds\n        for old_name, new_name in renamed_keys.items():\n            if matched_keys := self.config.match_item_keys(old_name, self.config.routines):"),
+                 ('loki/batch/scheduler.py', "                    for seed in self.seeds\n", "                    for seed in seeds\n")]),
+    Mutant('module-suffix-anywhere', 'loki/transformations/build_system/dependency.py',
+           "        if self.module_suffix and modname.lower().endswith(self.module_suffix.lower()):", "        if self.module_suffix and self.module_suffix.lower() in modname.lower():",
+           expect=('R5', 'unguarded')),
     Mutant('dependency-drops-flag', 'loki/transformations/build_system/dependency.py', "    renames_items = True\n    creates_items = True\n",
            "    creates_items = True\n", expect=('R1', 'DependencyTransformation'), quick=True),
     Mutant('duplicate-drops-flag', 'loki/transformations/dependency.py', "    creates_items = True\n    reverse_traversal = True\n\n    def __init__(self, duplicate_kernels",
